@@ -1,6 +1,8 @@
 //! C19: the real `ChaosLayer` (built through its public builder) over the scripted inner service.
 //!
 //! header: `chaos seed=<u64> [erate=<spec>] lrate=<spec> min_us=<µs> max_us=<µs> [order=<0|1>] [handles=<k>]`
+//!   `min_us` / `max_us`: the bounds given to the builder, any `Duration` in whole microseconds — from 0 to hours;
+//!   the layer compares them in whole milliseconds (`Duration::as_millis`, truncating), and so do mirror and model
 //!   rate spec: `T<n>`   = n / 2^53 (n ≤ 2^53; every such value is an exact f64)
 //!              `b<bits>` = the f64 with these bits (clamped to [0,1] like the builder does)
 //!              `d<i>[+1|-1]` = the i-th f64 of `StdRng::seed_from_u64(seed)` (± one step of 2^-53):
@@ -27,6 +29,14 @@
 //!    the layer, yields "decision i of the seed's stream" for the i-th first poll (`#pred c <d>`); what
 //!    the layer really decided for that request is taken from its event callbacks (`#obs c <d>`).
 //!
+//! `manual dropsvc`: the caller drops EVERY handle it holds — of instance A the pristine service, the k kept clones
+//! and the layer, of the twin its only handle and its layer — while call futures may be alive, polled or not yet
+//! polled (`let f = svc.call(r); drop(svc); f.await`, `svc.oneshot(r)`). Requests that arrived before still get
+//! their decision at their first poll, in first-poll order, from the seed's stream: instance A made their `call()`
+//! at `arrive`; the twin, whose `call()` is otherwise made at the first poll, makes the `call()`s of the requests
+//! not yet polled (in arrival order) just before it lets go of its handle. Mirror, oracle and callbacks live in
+//! what the futures hold and keep working. Later `arrive`s are answered `noop` (nothing left to make a call on).
+//!
 //! `manual stress threads=<N> calls=<K>`: real-OS-thread stress search (NOT a proof) for the part no
 //! single-threaded schedule can reach: N threads, each with a clone of one freshly built, equally
 //! configured and seeded service, make K calls in total (first poll only). Oracles: the property
@@ -35,6 +45,7 @@ use crate::world::*;
 use futures::future::BoxFuture;
 use rand::rngs::StdRng;
 use rand::{Rng, SeedableRng};
+use std::any::Any;
 use std::cell::{Cell, RefCell};
 use std::collections::{BTreeMap, HashMap, VecDeque};
 use std::future::Future;
@@ -213,7 +224,9 @@ fn inject(req: &Req) -> IErr {
 
 /// what is done with the service once it is built (its type depends on the builder path taken)
 trait Consumer<R> {
-    fn take<Sv>(self, svc: Sv) -> R
+    /// `layer`: the layer the service was made with; kept alive as long as the handles are (a caller that keeps
+    /// its layer around, e.g. to wrap further services), dropped with them
+    fn take<Sv>(self, svc: Sv, layer: Box<dyn Any>) -> R
     where
         Sv: Service<Req, Response = Resp, Error = IErr, Future = Fut> + Clone + Send + 'static;
 }
@@ -222,13 +235,14 @@ trait Consumer<R> {
 /// request; k >= 1: k clones taken up front, request c goes to handle c mod k)
 struct Cloning(usize);
 impl Consumer<MakeFut> for Cloning {
-    fn take<Sv>(self, svc: Sv) -> MakeFut
+    fn take<Sv>(self, svc: Sv, layer: Box<dyn Any>) -> MakeFut
     where
         Sv: Service<Req, Response = Resp, Error = IErr, Future = Fut> + Clone + Send + 'static,
     {
         let k = self.0;
         let mut hs: Vec<Sv> = (0..k).map(|_| svc.clone()).collect();
         Box::new(move |req| {
+            let _keep = &layer;
             let mut fresh;
             let s = if k == 0 {
                 fresh = svc.clone();
@@ -247,13 +261,16 @@ impl Consumer<MakeFut> for Cloning {
 /// the twin: one handle, never cloned
 struct Single;
 impl Consumer<MakeFut> for Single {
-    fn take<Sv>(self, mut svc: Sv) -> MakeFut
+    fn take<Sv>(self, mut svc: Sv, layer: Box<dyn Any>) -> MakeFut
     where
         Sv: Service<Req, Response = Resp, Error = IErr, Future = Fut> + Clone + Send + 'static,
     {
-        Box::new(move |req| match poll_ready_once(&mut svc) {
-            Poll::Ready(Ok(())) => Some(svc.call(req)),
-            _ => None,
+        Box::new(move |req| {
+            let _keep = &layer;
+            match poll_ready_once(&mut svc) {
+                Poll::Ready(Ok(())) => Some(svc.call(req)),
+                _ => None,
+            }
         })
     }
 }
@@ -282,9 +299,18 @@ where
         .seed(p.seed);
     let f: fn(&Req) -> IErr = inject;
     match p.erate {
-        None => k.take(b.build().layer(inner)),
-        Some(r) if p.order == 0 => k.take(b.error_rate(r).error_fn(f).build().layer(inner)),
-        Some(r) => k.take(b.error_fn(f).error_rate(r).build().layer(inner)),
+        None => {
+            let l = b.build();
+            k.take(l.layer(inner), Box::new(l))
+        }
+        Some(r) if p.order == 0 => {
+            let l = b.error_rate(r).error_fn(f).build();
+            k.take(l.layer(inner), Box::new(l))
+        }
+        Some(r) => {
+            let l = b.error_fn(f).error_rate(r).build();
+            k.take(l.layer(inner), Box::new(l))
+        }
     }
 }
 
@@ -348,10 +374,23 @@ fn hooks_a(p: &Params, mirror: Arc<Mutex<StdRng>>, cur: Cur) -> Hooks {
     }
 }
 
+/// The twin instance as its caller sees it: the one handle (until `manual dropsvc`), the requests that have arrived
+/// and whose `call()` is still to be made (at their first poll), and the futures of the `call()`s made when the
+/// handle was about to be dropped.
+struct TwinSide {
+    /// the twin's only handle (and its layer); `None` once every handle has been dropped
+    make: Option<MakeFut>,
+    /// arrived, not yet first polled, in arrival order
+    waiting: Vec<(usize, Req)>,
+    /// `call()` made at `manual dropsvc` for a request that had not been polled yet
+    made: HashMap<usize, Option<Fut>>,
+}
+
 pub struct Adapter {
     p: Params,
-    make_a: MakeFut,
-    make_b: Rc<RefCell<MakeFut>>,
+    /// every handle of instance A (pristine service, kept clones, layer); `None` once dropped
+    make_a: Option<MakeFut>,
+    twin: Rc<RefCell<TwinSide>>,
     a_calls: Calls,
     b_calls: Calls,
     mirror: Arc<Mutex<StdRng>>,
@@ -385,7 +424,8 @@ impl Adapter {
             Cloning(p.handles),
         );
         let make_b = build(Tap { inner: Quiet, calls: b_calls.clone() }, &p, hooks_b(cur_b.clone()), Single);
-        Adapter { p, make_a, make_b: Rc::new(RefCell::new(make_b)), a_calls, b_calls, mirror, oracle, cur, cur_b }
+        let twin = Rc::new(RefCell::new(TwinSide { make: Some(make_b), waiting: Vec::new(), made: HashMap::new() }));
+        Adapter { p, make_a: Some(make_a), twin, a_calls, b_calls, mirror, oracle, cur, cur_b }
     }
 }
 
@@ -400,9 +440,9 @@ pub fn render(r: Result<Resp, IErr>) -> String {
 struct Pair {
     c: usize,
     fa: Fut,
-    /// the twin's request: its `call()` is made at the first poll, on the twin's only handle
-    req_b: Option<Req>,
-    make_b: Rc<RefCell<MakeFut>>,
+    /// the twin's request waits in `twin.waiting`: its `call()` is made at the first poll, on the twin's only
+    /// handle — or, if every handle is dropped before that, just before the handle goes (`twin.made`)
+    twin: Rc<RefCell<TwinSide>>,
     fb: Option<Fut>,
     b_res: Option<Result<Resp, IErr>>,
     first: bool,
@@ -453,8 +493,14 @@ impl Future for Pair {
             // decision i of the seed's stream for the i-th first poll, from the free-running oracle
             let pred = decide_next(&mut this.oracle.borrow_mut(), this.et, this.lt, this.lo, this.hi);
             log_raw(format!("#pred {} {}", this.c, pred));
-            if let Some(req) = this.req_b.take() {
-                this.fb = (this.make_b.borrow_mut())(req);
+            let mut tw = this.twin.borrow_mut();
+            if let Some(f) = tw.made.remove(&this.c) {
+                this.fb = f;
+            } else if let Some(i) = tw.waiting.iter().position(|(c, _)| *c == this.c) {
+                let (_, req) = tw.waiting.remove(i);
+                if let Some(mk) = tw.make.as_mut() {
+                    this.fb = mk(req);
+                }
             }
         }
         // the twin first: a scripted panic of A's inner service unwinds out of this function
@@ -479,6 +525,18 @@ impl Future for Pair {
         match ra {
             Poll::Ready(r) => Poll::Ready(render(r)),
             Poll::Pending => Poll::Pending,
+        }
+    }
+}
+
+impl Drop for Pair {
+    fn drop(&mut self) {
+        if self.first {
+            // never polled: the twin has no `call()` to make for it any more
+            if let Ok(mut tw) = self.twin.try_borrow_mut() {
+                tw.waiting.retain(|(c, _)| *c != self.c);
+                tw.made.remove(&self.c);
+            }
         }
     }
 }
@@ -536,7 +594,7 @@ struct StressOut {
 }
 
 impl Consumer<StressOut> for Stress {
-    fn take<Sv>(self, svc: Sv) -> StressOut
+    fn take<Sv>(self, svc: Sv, _layer: Box<dyn Any>) -> StressOut
     where
         Sv: Service<Req, Response = Resp, Error = IErr, Future = Fut> + Clone + Send + 'static,
     {
@@ -778,16 +836,21 @@ impl Adapter {
 
 impl Mw for Adapter {
     fn arrive(&mut self, c: usize, kv: &Kv) -> Option<CallFut> {
+        let Some(make_a) = self.make_a.as_mut() else {
+            // every handle has been dropped: there is nothing left to make a call on
+            log_raw("noop".into());
+            return None;
+        };
         let req = Req::new(c, kv);
-        let Some(fa) = (self.make_a)(req.clone()) else {
+        let Some(fa) = make_a(req.clone()) else {
             log(format!("result {} notready", c));
             return None;
         };
+        self.twin.borrow_mut().waiting.push((c, req));
         Some(Box::pin(Pair {
             c,
             fa,
-            req_b: Some(req),
-            make_b: self.make_b.clone(),
+            twin: self.twin.clone(),
             fb: None,
             b_res: None,
             first: true,
@@ -819,6 +882,21 @@ impl Mw for Adapter {
             obs("eT", self.p.et());
             obs("lT", self.p.lt());
             self.stress(kv);
+        }
+        if what == "dropsvc" {
+            log_raw(format!("#dropsvc {}", now_ms()));
+            // instance A: the pristine service, the kept clones and the layer all live in the closure
+            self.make_a = None;
+            // the twin makes the `call()`s it still owes (requests that arrived and were not polled yet), in
+            // arrival order, then drops its only handle and its layer
+            let mut tw = self.twin.borrow_mut();
+            let waiting = std::mem::take(&mut tw.waiting);
+            if let Some(mut mk) = tw.make.take() {
+                for (c, req) in waiting {
+                    let f = mk(req);
+                    tw.made.insert(c, f);
+                }
+            }
         }
     }
 }
